@@ -77,6 +77,23 @@ ParseScryptSetting(s) ==
   IF Len(s) < 14 \/ SubSeq(s, 1, 3) # <<36, 55, 36>> THEN [ok |-> FALSE]
   ELSE LET n == D64(s[4])  r == D64x5(s, 5)  p == D64x5(s, 10)
        IN [ok |-> n >= 0 /\ r.ok /\ p.ok, nlog2 |-> n, r |-> r.val, p |-> p.val]
+\* hash / salt field codec of $7$ strings: 3 bytes -> 4 characters, least significant 6 bits first; a trailing group of
+\* k < 3 bytes gives ceil(8k / 6) characters
+E64Group(bs) == LET v == bs[1] + (IF Len(bs) > 1 THEN 256 * bs[2] ELSE 0) + (IF Len(bs) > 2 THEN 65536 * bs[3] ELSE 0)
+                    n == CASE Len(bs) = 1 -> 2 [] Len(bs) = 2 -> 3 [] OTHER -> 4
+                IN [k \in 1..n |-> Itoa64[((v \div (64 ^ (k - 1))) % 64) + 1]]
+Enc64(bytes) == LET ng == (Len(bytes) + 2) \div 3
+                    G(i) == E64Group(SubSeq(bytes, (3 * i) - 2, IF 3 * i > Len(bytes) THEN Len(bytes) ELSE 3 * i))
+                    RECURSIVE Cat(_) Cat(i) == IF i = 0 THEN <<>> ELSE Cat(i - 1) \o G(i)
+                IN Cat(ng)
+\* crypto_pwhash_scryptsalsa208sha256_str_verify: the string must be exactly 101 characters, its setting must parse,
+\* its salt is the raw characters between the setting and the LAST '$', and re-hashing must reproduce the string
+LastDollar(s) == LET D == {i \in 15..Len(s) : s[i] = 36} IN IF D = {} THEN 0 ELSE CHOOSE i \in D : \A j \in D : j <= i
+ScryptVerify(s, pwd, ScryptFn(_, _, _, _, _, _)) ==
+  LET q == ParseScryptSetting(s)  ld == LastDollar(s)
+  IN /\ Len(s) = 101 /\ q.ok /\ ld > 0
+     /\ q.nlog2 >= 1 /\ q.nlog2 <= 20 /\ q.r >= 1 /\ q.p >= 1
+     /\ s = SubSeq(s, 1, ld) \o Enc64(ScryptFn(pwd, SubSeq(s, 15, ld - 1), 2 ^ q.nlog2, q.r, q.p, 32))
 \* pickparams(opslimit, memlimit) for values < 2^31 (the driver stays there)
 PickNlog2(maxN) == CHOOSE k \in 1..63 : (IF k < 31 THEN 2 ^ k > maxN \div 2 ELSE TRUE) /\ \A j \in 1..(k - 1) : (j < 31 /\ 2 ^ j <= maxN \div 2)
 PickParams(ops0, mem) ==
